@@ -59,6 +59,7 @@ func (h *bsHeaders) LastHash() bitcoin.Hash32 {
 	if atomic.CompareAndSwapInt32(&h.w.armed, 1, 0) {
 		if h.w.appendHeader() {
 			atomic.AddInt32(&h.w.injected, 1)
+			h.w.promptTrigger()
 		}
 	}
 	return r
@@ -75,10 +76,26 @@ func (h *bsHeaders) maybeReorg() {
 		if atomic.CompareAndSwapInt32(&h.w.armedReorg, k, k-1) {
 			if k == 1 && h.w.reorgNow() {
 				atomic.AddInt32(&h.w.injected, 1)
+				h.w.promptTrigger()
 			}
 			return
 		}
 	}
+}
+
+// promptTrigger: in half of the traces the node manager's reaction to the injected header (its trigger) comes at once,
+// from another goroutine, while the round that was interrupted by the injection is still reading the repository; in the
+// other half the driver issues it after its current step.
+func (w *bsWorld) promptTrigger() {
+	if !w.prompt {
+		return
+	}
+	atomic.AddInt32(&w.triggered, 1)
+	go func() {
+		w.log(bsEvent{Ev: "trigger"})
+		w.nm.TriggerBlockSynchronize(w.ctx)
+	}()
+	time.Sleep(300 * time.Microsecond)
 }
 
 func (h *bsHeaders) PreviousHash(hash bitcoin.Hash32) (*bitcoin.Hash32, int) {
@@ -120,6 +137,8 @@ type bsWorld struct {
 	// header injection between two reads of the synchronisation
 	armed, injected int32
 	armedReorg      int32
+	triggered       int32 // triggers issued for injected headers
+	prompt          bool
 	reorgSeed       int64
 	hdrMu           sync.Mutex // serialises additions to the chain (driver and injection)
 	maxLen          int
@@ -128,6 +147,7 @@ type bsWorld struct {
 	serving         map[int]int           // per block id: sources currently working on it
 	gates           map[int]chan struct{} // per block id: closed when a second source is asked (simultaneous scenario)
 	fail            map[int][]string      // per block id: outcomes of successive RequestBlock calls before it is served
+	lone            map[int]bool          // per block id: only one connection can serve it
 	hold            map[int]chan struct{}
 	intr            chan interface{}
 	bmDone          chan error
@@ -201,6 +221,15 @@ func (w *bsWorld) RequestBlock(ctx context.Context, hash bitcoin.Hash32, handler
 	}
 	// a source asked while another one is still working on the same block
 	second := w.serving[b.id] > 0
+	if second && w.lone[b.id] {
+		// "lone": the only connection that can serve this block is busy with it (and slow): every further
+		// request for the block fails while the download goes on
+		w.mu.Unlock()
+		return nil, bitcoin_reader.ErrNodeNotAvailable
+	}
+	if outcome == "lone" {
+		w.lone[b.id] = true
+	}
 	if bsSimultaneous && !second {
 		outcome = "slow"
 	}
@@ -238,6 +267,15 @@ func (w *bsWorld) RequestBlock(ctx context.Context, hash bitcoin.Hash32, handler
 			// the other source is ahead: this one delivers only if nobody cancels it in 300 ms
 			select {
 			case <-time.After(300 * time.Millisecond):
+			case <-node.cancelled:
+				return
+			case <-w.intr:
+				return
+			}
+		} else if outcome == "lone" {
+			// much slower than twenty request delays
+			select {
+			case <-time.After(120 * time.Millisecond):
 			case <-node.cancelled:
 				return
 			case <-w.intr:
@@ -306,7 +344,7 @@ var bsSimultaneous = false
 
 func newBsWorld(n, start int, processed []int, firstID int) *bsWorld {
 	w := &bsWorld{byHash: map[bitcoin.Hash32]*bsBlock{}, fail: map[int][]string{}, hold: map[int]chan struct{}{}, nextID: 1,
-		serving: map[int]int{}, gates: map[int]chan struct{}{}}
+		serving: map[int]int{}, gates: map[int]chan struct{}{}, lone: map[int]bool{}}
 	w.ctx = logger.ContextWithNoLogger(context.Background())
 	w.t0 = time.Now()
 	hcfg := headers.DefaultConfig()
@@ -553,7 +591,7 @@ func bsTraceOne(id int, seed int64, orphan bool) bsTrace {
 	w := newBsWorld(n, start, processed, maxLen+1)
 	defer w.close()
 	// block source failures before a block is served
-	outcomes := []string{"nonode", "dropmid", "wrongblock", "slow", "slow"}
+	outcomes := []string{"nonode", "dropmid", "wrongblock", "slow", "slow", "lone"}
 	plan := func(id int) {
 		if rng.Intn(3) == 0 {
 			var q []string
@@ -593,12 +631,12 @@ func bsTraceOne(id int, seed int64, orphan bool) bsTrace {
 		// (handled below after the first trigger)
 	}
 	steps := 2 + rng.Intn(5)
-	var triggered int32
+	w.prompt = rng.Intn(2) == 0
 	reorged := false
 	catchUp := func() {
 		// the trigger the node manager issues for a header that arrived between two reads of the synchronisation
-		for triggered < atomic.LoadInt32(&w.injected) {
-			triggered++
+		for atomic.LoadInt32(&w.triggered) < atomic.LoadInt32(&w.injected) {
+			atomic.AddInt32(&w.triggered, 1)
 			trigger()
 		}
 	}
@@ -631,7 +669,7 @@ func bsTraceOne(id int, seed int64, orphan bool) bsTrace {
 		if !w.waitIdle(8 * time.Second) {
 			tr.Note = "the synchronisation thread did not finish within 8 s"
 		}
-		if triggered == atomic.LoadInt32(&w.injected) {
+		if atomic.LoadInt32(&w.triggered) >= atomic.LoadInt32(&w.injected) {
 			break
 		}
 		catchUp()
